@@ -8,7 +8,7 @@ MUST_ENTER = [('a5/core/compact.py', 'compact'), ('a5/core/serialization.py', 'i
 RULE = ('inputs X: exhaustive antichains of a seed-chosen bounded sub-hierarchy (world; 12 faces; 5 segments of faces A and B; 4 children '
         'of one segment; 4 children of one of those: 2193 x 33 x {other ten faces all / none / one absent} = 868,428 quick, '
         '2193 x 33 x 256 thorough), each presented shuffled, with duplicates and (a third) polluted with ancestors/descendants; '
-        'all orders of <=6-cell cases; random large mixed-level sets; spines (a complete partition of the world or of a random cell refined along one path for up to 30 levels, complete or with one leaf removed / partly refined); a share of the lists is passed sorted ascending / descending. Oracle: canon(compact(X)) == canon(X) in the set model, '
+        'all orders of <=6-cell cases; random large mixed-level sets; sibling groups with one or two members absent in which present members are also listed through all their descendants; spines (a complete partition of the world or of a random cell refined along one path for up to 30 levels, complete or with one leaf removed / partly refined); a share of the lists is passed sorted ascending / descending. Oracle: canon(compact(X)) == canon(X) in the set model, '
         'cross-checked by explicit expansion through cell_to_children and, for bounded spines, by the property own observation set(a5.uncompact(compact(X), R)) == set(a5.uncompact(X, R)). distinct = distinct argument lists; '
         'non-trivial = at least 2 distinct cells')
 ASSUMPTIONS = ['hierarchy model built from single-step observations of cell_to_parent (validated by C06)']
@@ -86,6 +86,11 @@ def run_shard(spec, ctx):
             L = cc.presentations(rnd, X, tree, True)
             ctx.case(tuple(L), nontrivial=True)
             ctx.count('spine_cases')
+            eval_case(a5, tree, L, ctx, {'cells': L})
+        for _ in range(60 * spec['n']):
+            L = cc.covered_twice(rnd, a5, gen)
+            ctx.case(tuple(L), nontrivial=True)
+            ctx.count('covered_twice_cases')
             eval_case(a5, tree, L, ctx, {'cells': L})
         # the property's own observation point, set(uncompact(compact(X), R)) == set(uncompact(X, R)), on bounded cases; several
         # different X under the same root, each with a foreign cell in the list, are observed one after the other
